@@ -345,21 +345,29 @@ def run_spacing(seed):
     try:
         cfg = {'starting_balance': 1000, 'fee': 0, 'type': spec['type'], 'futures_leverage': 2, 'futures_leverage_mode': 'cross',
                'exchange': ex, 'warm_up_candles': 0}
-        routes = [{'exchange': ex, 'strategy': P.strategy_class_for_route(0), 'symbol': 'BTC-USDT', 'timeframe': '1m'}]
+        sym = spec['routes'][0]['symbol']
+        other = 'ETH-USDT' if sym != 'ETH-USDT' else 'BTC-USDT'
+        routes = [{'exchange': ex, 'strategy': P.strategy_class_for_route(0), 'symbol': sym, 'timeframe': '1m'}]
         good = np.array([[T0 + i * 60_000, 10, 10, 10, 10, 1.0] for i in range(n)], dtype=float)
         data_routes = []
         if where == 'data-only':
             # the trading symbol is fine; a symbol that is present only as a data route carries the bad spacing
-            candles = {f'{ex}-BTC-USDT': {'exchange': ex, 'symbol': 'BTC-USDT', 'candles': good},
-                       f'{ex}-ETH-USDT': {'exchange': ex, 'symbol': 'ETH-USDT', 'candles': arr}}
-            data_routes = [{'exchange': ex, 'symbol': 'ETH-USDT', 'timeframe': '1m'}]
+            candles = {f'{ex}-{sym}': {'exchange': ex, 'symbol': sym, 'candles': good},
+                       f'{ex}-{other}': {'exchange': ex, 'symbol': other, 'candles': arr}}
+            data_routes = [{'exchange': ex, 'symbol': other, 'timeframe': '1m'}]
         else:
-            candles = {f'{ex}-BTC-USDT': {'exchange': ex, 'symbol': 'BTC-USDT', 'candles': arr}}
+            candles = {f'{ex}-{sym}': {'exchange': ex, 'symbol': sym, 'candles': arr}}
         raised = None
         try:
             research.backtest(cfg, routes, data_routes, candles)
         except Exception as e:
             raised = e
+            import traceback
+            fr = traceback.extract_tb(e.__traceback__)
+            if fr and '/simlab/' in fr[-1].filename:
+                # raised by harness code (strategy program / seam), not by jesse: a harness error, never a verdict
+                from simlab import farm
+                raise farm.HarnessError('harness exception in spacing run: ' + ''.join(traceback.format_exception(e))[-1500:])
         if kind == 'ok' and raised is not None:
             vs.append({'property': 'C20', 'clause': 'spacing', 'fingerprint': f'C20|spacing|correct-input-rejected|{type(raised).__name__}',
                        'detail': {'exc': repr(raised)}, 'seq': 0, 'horizon': -1})
